@@ -239,6 +239,67 @@ func runC14(seed int64, tier string, sc *Script) map[string]any {
 		}
 		sc.Op(verdict, "rf fault kind=%s pre=%d digesthdr=%v", kind, nPre, ri%2 == 0)
 		evals++
+		// the same faults while a referrer is deleted: whatever the call reports, the listing
+		// is the set of referrers that are still there
+		reg.mu.Lock()
+		reg.denyIndexDelete, reg.failIndexPutOnce, reg.failIndexGetOnce = false, false, false
+		switch kind {
+		case "deny-index-delete":
+			reg.denyIndexDelete = true
+		case "fail-index-put":
+			reg.failIndexPutOnce = true
+		default:
+			reg.failIndexGetOnce = true
+		}
+		reg.mu.Unlock()
+		// (the referrer whose push was refused above may be stored without being listed - the
+		// caller was told; it is left out of the comparison)
+		skip100 := perr != nil && !isIdxDel
+		liveSet := func() string {
+			var live []string
+			for i := 0; i <= 100; i++ {
+				if (i >= nPre && i != 100) || (i == 100 && skip100) {
+					continue
+				}
+				di, _ := mkRef(i)
+				if ok, err := repo.Exists(ctx, di); err == nil && ok {
+					live = append(live, fmt.Sprint(i))
+				}
+			}
+			sort.Strings(live)
+			return strings.Join(live, ",")
+		}
+		victim, _ := mkRef(0)
+		derr := repo.Delete(ctx, victim)
+		isIdxDel = errors.As(derr, &re) && re.IsReferrersIndexDelete()
+		// (a delete that empties the index pushes no new one and may not need to read the old:
+		// the once-only faults that did not fire are no faults)
+		reg.mu.Lock()
+		fired := kind == "deny-index-delete" || !(reg.failIndexPutOnce || reg.failIndexGetOnce)
+		reg.mu.Unlock()
+		verdict = "ok"
+		if got, live := listed(), liveSet(); got != live {
+			verdict = fmt.Sprintf("listing-is-not-the-live-set(listed=%s,live=%s,err=%v)", got, live, derr != nil)
+		} else if kind == "deny-index-delete" && derr != nil && !isIdxDel {
+			verdict = "not-reported-as-index-delete-error"
+		} else if kind != "deny-index-delete" && fired && derr == nil {
+			verdict = "failed-index-update-not-reported"
+		}
+		sc.Op(strings.ReplaceAll(verdict, " ", "_"), "rf fault kind=%s-on-delete pre=%d digesthdr=%v", kind, nPre, ri%2 == 0)
+		evals++
+		// with nothing in the way the same delete goes through (or has gone through)
+		reg.mu.Lock()
+		reg.denyIndexDelete, reg.failIndexPutOnce, reg.failIndexGetOnce = false, false, false
+		reg.mu.Unlock()
+		derr = repo.Delete(ctx, victim)
+		verdict = "ok"
+		if got, live := listed(), liveSet(); got != live {
+			verdict = fmt.Sprintf("listing-is-not-the-live-set(listed=%s,live=%s,err=%v)", got, live, derr != nil)
+		} else if strings.HasPrefix(live+",", "0,") {
+			verdict = "victim-still-there"
+		}
+		sc.Op(strings.ReplaceAll(verdict, " ", "_"), "rf fault kind=%s-delete-again pre=%d digesthdr=%v", kind, nPre, ri%2 == 0)
+		evals++
 		reg.Close()
 	}
 	// (b) end to end under concurrency
